@@ -15,7 +15,7 @@ RULE = ("seeded multi-track pieces: 1-3 tracks of unequal length (incl. empty tr
 PLAN = {"quick": {"cases": 1500, "jobs": 4, "timeout": 600},
         "thorough": {"cases": 80000, "jobs": 16, "timeout": 3000, "budget_s": 420}}
 FLOORS = {"quick": {"bars.bar_length.armed": 2000, "bars.sound_exact.armed": 900, "bars.sound_subset.armed": 900,
-                    "bars.only_cut_fragments_shrink.armed": 700, "bars.coverage.armed": 1200, "c09.ragged": 400,
+                    "bars.only_cut_fragments_shrink.armed": 700, "bars.coverage.armed": 1000, "c09.ragged": 400,
                     "c09.signature_change": 400, "c09.note_crosses_bar": 400},
           "thorough": {"bars.bar_length.armed": 60000}}
 VALS = gen.DEFAULT_NOTE_VALUES
